@@ -45,6 +45,12 @@ CLAIMED = {
         text="For operands of any length: a+b (all four elementary/composite cases, 16+12+12+9 class combinations) contains exactly the operands' elements in order with identity preserved; the result is CompositeDisplacementMove/CompositeExchangeMove exactly when all elements are of that kind, a plain CompositeMove otherwise; a*n repeats in order for n>=1 and raises for n<1 or non-integers; results stay flat; a plain composite calls each element once in order (repeated objects repeatedly) and succeeds iff any does; same for operations. All trees follow since every tree is a composition of these cases and concatenation is associative.",
         note="operand composites assumed to satisfy the invariant (base cases are hand-built); Python list semantics modelled in pyvc/models/glist.py (trusted); n*composite-move is not claimed (no __rmul__, outside the statement).",
         design="§7 C17"),
+    "C16": dict(
+        category="other",
+        technique="contract-based deductive verification: the real Logger/TrajectoryObserver/RestartObserver __call__ bodies executed against an abstract file (buffer/durable semantics); one crash obligation per program point between consecutive file operations; known finding F25 (non-atomic restart rewrite) recorded; native crash-injection stand-in with the real readers",
+        text="Logger: header is one complete line; each call is exactly one write of a newline-terminated line then flush, no seek/truncate; after each call header + one flushed line per call; a crash after any operation keeps all completed lines. Trajectory: one frame then flush per call, earlier bytes untouched, crash keeps earlier frames. Restart: the document written is the simulation's todict; after each call exactly one document of the latest state for modes a and w (also when shorter); crash obligations hold except after truncate()/before the flush completes, where the file is empty or partial: recorded as known finding F25, so this is NOT a proof of the whole property. ObserverManager.close closes each attached file once and pending output reaches the file.",
+        note="file-object semantics, write_json (one write of obj.todict()) and write_xyz (frame in two writes) are trusted contracts; process death only (no fsync/power loss).",
+        design="§7 C16"),
 }
 PENDING_REASON = "check not yet registered in this revision (under construction; see DESIGN.md §0/§7 for the plan)"
 
